@@ -128,17 +128,16 @@ type record struct {
 }
 
 func drawStreamPoly(t *rapid.T, c *cx, label string) *model {
-	size := 1 << rapid.IntRange(0, 4).Draw(t, label+"lg")
-	pal := shiftPalette(c, 4*size)
+	size, f, n0, _ := drawInit(t, 4, label)
+	pal := shiftPalette(c, 8*np2(size))
 	co, _ := drawElems(t, c, size, label+"coef")
 	sh := &shared{c: c, p: ref.NewPoly(c.F, co), size: size, s: rapid.SampledFrom(pal).Draw(t, label+"cosetshift"), pal: pal, tabs: map[int]*tables{}}
-	f := rapid.SampledFrom(allForms).Draw(t, label+"form")
-	m := newModel(sh, f, size*rapid.SampledFrom([]int{1, 1, 2}).Draw(t, label+"rho"))
+	m := newModel(sh, f, n0)
 	for k := rapid.IntRange(0, 3).Draw(t, label+"nops"); k > 0; k-- {
-		op := rapid.SampledFrom([]int{opToCanonical, opToLagrange, opToLagrangeCoset, opToLagrangeCoset, opToBitReverse, opToRegular, opGrowCoset}).Draw(t, label+"op")
-		m.apply(t, op, rapid.IntRange(0, 14).Draw(t, label+"variant"), 4*size)
+		op := rapid.SampledFrom([]int{opToCanonical, opToLagrange, opToLagrangeCoset, opToLagrangeCoset, opToBitReverse, opToRegular, opGrowCoset, opGrowLagrange, opGrowCanonical}).Draw(t, label+"op")
+		m.apply(t, op, rapid.IntRange(0, 14).Draw(t, label+"variant"), max(4*np2(size), m.n))
 	}
-	m.shift = drawShift(t, size, label+"shift")
+	m.shift = drawRtShift(t, size, label+"shift")
 	m.lib.Shift(m.shift)
 	return m
 }
@@ -311,7 +310,8 @@ func propStream(t *rapid.T, c *cx) {
 		m.lib = back
 		m.spare = false
 		m.hist = append(m.hist, fmt.Sprintf("WriteTo(%s)>ReadFrom(%s, record %d of %d)", wkind, rkind, i, len(recs)))
-		m.checkShape(t)
+		m.checkDecoded(t) // entries, Evaluate at free / domain / coset / subgroup points, GetCoeff everywhere, under the decoded shift
+		classes = append(classes, rtClasses(m.size, m.shift)...)
 		if m.canEvaluate() {
 			pc := rapid.SampledFrom(pointClasses).Draw(t, fmt.Sprintf("pc%d", i))
 			m.checkEvalCurrent(t, m.point(pc, rapid.IntRange(0, 2*m.n).Draw(t, fmt.Sprintf("pj%d", i))), pc)
